@@ -134,20 +134,18 @@ def conclude(prop, tier, seed, results, wall, reg):
             lines.append(f"VIOLATION property={prop} replay={path}")
             exit_code = 1
 
-    # ---- thorough tier: native cross-check of proved units
+    # ---- thorough tier: native cross-checks (proved pyvc units; history scripts for frame units)
     for r in results:
-        cc = r.get("cross_check")
-        if not cc:
-            continue
-        bounded.append(cc)
-        if cc.get("failing") is not None:
-            ob = {"name": r["name"] + "/native-cross-check", "kind": "bounded", "backend": "native",
-                  "reason": "a generated input fails a contract clause on the real code although the unit's obligations were discharged",
-                  "model": cc["failing"], "seconds": cc.get("seconds", 0)}
-            path = write_replay(prop, r, ob, True, cc["failing"])
-            violations += 1
-            lines.append(f"VIOLATION property={prop} replay={path}")
-            exit_code = 1
+        for cc in ([r["cross_check"]] if r.get("cross_check") else []) + list(r.get("cross_checks") or []):
+            bounded.append(cc)
+            if cc.get("failing") is not None:
+                ob = {"name": cc.get("unit", r["name"]) + "/native-cross-check", "kind": "bounded", "backend": "native",
+                      "reason": "a generated input / history fails on the real code although the unit's obligations were discharged",
+                      "model": cc["failing"], "seconds": cc.get("seconds", 0)}
+                path = write_replay(prop, r, ob, True, cc["failing"])
+                violations += 1
+                lines.append(f"VIOLATION property={prop} replay={path}")
+                exit_code = 1
 
     # ---- lock / vacuity: the obligations that come from the sidecar contracts themselves
     # (postconditions, must-raise clauses, loop invariants, lemma goals, regex and frame
